@@ -130,5 +130,15 @@ MODEL_LEVEL.update({
            'slots and every directed pair is produced by some skip sequence.',
     'C17': 'Props/C17Model: the Louvain visit / sweep / level of the step model are independent of the iteration order of the candidate-community map.',
 })
+MODEL_LEVEL.update({
+    'C04': 'Path lists (Props/C04Paths, C04PathsReach): with positive costs the model returns exactly the set of all shortest paths, each once on every store built through the API; '
+           'first_only returns exactly one of them. Public functions by names against the abstract graph: Props/C08Api.',
+    'C08': 'Model level (Props/C04Paths, C08Api): a target run is a prefix of the unrestricted run, with_paths=false only empties the path lists, all_pairs = multi_source = one single_source per node, '
+           'distances symmetric on undirected graphs, get_all_shortest_paths_involving characterised.',
+    'C18': 'Model level (Props/C18Model): the model is generic over the scalar type; its real instance is the power step of I + A^T of the abstract graph and every Ok answer of the real-instance loop '
+           'satisfies the C18 clauses; the driver runs the Float instance of the same definitions.',
+    'C20': 'Props/C20Model: on every well-formed store (empty graph of every kind included) the models of betweenness, closeness, strong components, Louvain, single_source and modularity never panic.',
+})
+MODEL_LEVEL['C09'] += ' Props/C09Rest: sizes, density, degree centrality and the adjacency-matrix triplets of the model equal the abstract values.'
 for _k, _v in MODEL_LEVEL.items():
     TEXT[_k]['level'] = TEXT[_k]['level'] + ' ' + _v
